@@ -100,7 +100,7 @@ def r3_filter_guards_enqueue(chk):
                 if not c.matches(r"ReadyPipeSender::(send|try_send|try_send_batch)$|spsc::BoundedAsyncSender::(try_send|send)$"):
                     continue
                 gs = body.guards(c.blk, select_aware=False)
-                filt = any(g.atom[0] == "discr" and g.atom[2].endswith("PipeMessageSender") and g.label == vidx for g in gs)
+                filt = any(g.atom[0] == "discr" and g.atom[2].endswith("PipeMessageSender") and g.is_value(vidx, 3) for g in gs)
                 if not filt:
                     continue
                 key = "%s|%s under filter" % (short(body.path), c.name)
